@@ -174,7 +174,7 @@ def gen_project(rng, idx: int, kind: str, extra: T.List[str], nsites: int) -> T.
             if mode == 'input':
                 args.append(rng.choice(['@INPUT@', 'i=@INPUT@', '@PLAINNAME@', '@BASENAME@.x', '@INPUT0@']))
             sid = f'ct{i}'
-            env = mkenv(sid, False) if 'env' in mode else []
+            env = mkenv(sid, True) if 'env' in mode else []
             kw = [f"output: '{sid}.out'"]
             if mode == 'feed':
                 kw += ["input: 'feed.txt'", 'feed: true']
@@ -201,7 +201,7 @@ def gen_project(rng, idx: int, kind: str, extra: T.List[str], nsites: int) -> T.
             if rng.random() < 0.3:
                 args.append(rng.choice(['@SOURCE_ROOT@', 'r=@BUILD_ROOT@']))
             sid = f'rt{i}'
-            env = mkenv(sid, False) if mode == 'env' else []
+            env = mkenv(sid, True) if mode == 'env' else []
             kw = ''
             if env:
                 envdef(f'env_{sid}', env)
